@@ -196,7 +196,9 @@ theorem hasWith_false : ∀ (s : JS), ReadOKS s → s.hasWith = false
   | .ret _, _ => rfl
   | .var _, _ => rfl
   | .brk, _ => rfl
-  | .forOf _ _ _, h => absurd h (by simp [ReadOKS])
+  | .forOf v l b, h => by
+    simp only [ReadOKS] at h
+    simp [JS.hasWith, hasWithL_false b h.2.2]
   | .with _ _, h => absurd h (by simp [ReadOKS])
 theorem hasWithL_false : ∀ (b : List JS), ReadOKSs b → JS.hasWithL b = false
   | [], _ => rfl
